@@ -330,7 +330,8 @@ def _enclosing_for(g: Func, node: ast.AST) -> ast.For | None:
 
 def _other_cursor_writes(c: Ctx, g: Func, loop: ast.For, dispatch: ast.Call, terms: set[str]) -> str:
     """Stores to the contract's terms inside the loop body other than through the dispatch call itself."""
-    for s in ast.walk(loop):
+    body_nodes = [x for b in loop.body for x in ast.walk(b)]          # the `else:` clause of a for runs after the loop, not in it
+    for s in body_nodes:
         if s is dispatch:
             continue
         tg: list[ast.AST] = []
